@@ -5,6 +5,11 @@ use log::{debug, error};
 use md5::{Digest, Md5};
 use socket2::{SockRef, TcpKeepalive};
 use tokio::io::{AsyncReadExt, AsyncWriteExt};
+#[cfg(pgcat_verif)]
+use simcore::net::TcpStream;
+#[cfg(pgcat_verif)]
+use simcore::rand_shim as rand;
+#[cfg(not(pgcat_verif))]
 use tokio::net::TcpStream;
 
 use crate::client::PREPARED_STATEMENT_COUNTER;
@@ -709,6 +714,11 @@ pub fn server_parameter_message(key: &str, value: &str) -> BytesMut {
 }
 
 pub fn configure_socket(stream: &TcpStream) {
+    // Simulated sockets have no kernel options.
+    #[cfg(pgcat_verif)]
+    if simcore::net::SIMULATED {
+        return;
+    }
     let sock_ref = SockRef::from(stream);
     let conf = get_config();
 
